@@ -780,6 +780,14 @@ class Walker:
                 return [Outcome("val", st, Const(truth))]
             if name == "is_empty" and isinstance(recv, Const) and isinstance(recv.v, str):
                 return [Outcome("val", st, Const(recv.v == ""))]
+            if name == "starts_with" and len(args) == 1 and isinstance(args[0], Const) and isinstance(args[0].v, str):
+                pre = args[0].v
+                if isinstance(recv, Const) and isinstance(recv.v, str):
+                    return [Outcome("val", st, Const(recv.v.startswith(pre)))]
+                if isinstance(recv, Fmt):
+                    lit = recv.template.replace("{{", "\x00").split("{")[0].replace("\x00", "{")
+                    if len(lit) >= len(pre) or (lit and not pre.startswith(lit)):
+                        return [Outcome("val", st, Const(lit.startswith(pre)))]
             if name == "eq" and len(args) == 1:
                 fake = {"k": "binary", "op": "==", "l": n["recv"], "r": n["args"][0]}
                 return self.ev_binary(fake, st)
